@@ -628,6 +628,31 @@ func init() {
 		Body: routineTwo(false, []int{lCtxFresh, lClear, lCtxFresh}, []int{lSetRoutine, lRestart}, []int{iUntilCancelled}),
 	})
 	eng.Register(&eng.Scenario{
+		Name: "routine-setroutine-race", Props: []string{"C05", "C04"}, ObsNames: stdObs,
+		Doc:   "RoutineContainer with a context, two concurrent controllers: T1 = SetRoutine(new); SetRoutine(new)  ||  T2 = SetRoutine(new): at quiescence exactly one instance is live (the container has a context and a routine), nothing overlaps, and after ClearContext nothing is left executing",
+		Quick: eng.Bounds{PB: 2, Delay: true}, Thorough: eng.Bounds{PB: 4, Delay: true},
+		Body: func() {
+			o := newRC([]int{iUntilCancelled})
+			vsched.CtrSet(rTagsExact, 0) // (two concurrent controllers: the order of their calls is not known to the harness)
+			var cur, cur2 context.Context
+			doLetter(o, lCtxFresh, &cur, "init")
+			T("T1", func() {
+				doLetter(o, lSetRoutine, &cur2, "T1")
+				doLetter(o, lSetRoutine, &cur2, "T1")
+			})
+			T("T2", func() { doLetter(o, lSetRoutine, &cur2, "T2") })
+			vsched.Settle()
+			if live, _, _ := liveInstances(0); live != 1 {
+				fail("C05.two-live", "%d instances with a live context at quiescence after concurrent SetRoutine calls, want exactly 1", live)
+			}
+			o.clear()
+			vsched.Settle()
+			if a := vsched.Ctr(rActive); a != 0 {
+				fail("C05.live-after-clear", "%d instance(s) still executing after ClearContext and quiescence", a)
+			}
+		},
+	})
+	eng.Register(&eng.Scenario{
 		Name: "routine-retry", Props: []string{"C04", "C05", "C14"}, ObsNames: stdObs,
 		Doc:   "RoutineContainer with retry back-off (auto timers: the retry fires at any time): the first instance returns an error, later ones run until cancelled; controller issues words of length 2 over {SetRoutine(new), RestartRoutine, SetContext(fresh,true|false), SetContext(same,false), ClearContext}; the survivor must derive from the current context also when it was started by the retry timer",
 		Quick: eng.Bounds{PB: 1}, Thorough: eng.Bounds{PB: 2},
@@ -776,6 +801,40 @@ func init() {
 		Doc:   "StateRoutineContainer: as routine-extcancel, alphabet extended by SetState(2)",
 		Quick: eng.Bounds{PB: 2, Delay: true}, Thorough: eng.Bounds{PB: 3, Delay: true},
 		Body: extCancel(true),
+	})
+	eng.Register(&eng.Scenario{
+		Name: "sroutine-odd-compare", Props: []string{"C05"}, ObsNames: stdObs,
+		Doc:   "StateRoutineContainer with a compare function that is not reflexive (never equal, or equal only for two non-zero states; choice): SetState(1) runs the routine, SetState(0) (the empty state) stops it whatever the compare function says about zero values: once quiet no instance is live while the state is empty; SetState(2) runs it again with 2",
+		Quick: eng.Bounds{PB: 2}, Thorough: eng.Bounds{PB: 3},
+		Body: func() {
+			cmp := []func(a, b int) bool{
+				func(a, b int) bool { return false },
+				func(a, b int) bool { return a != 0 && b != 0 && a == b },
+			}[vsched.Choose(2)]
+			k := routine.NewStateRoutineContainer[int](cmp, exitObs())
+			k.SetStateRoutine(func(ctx context.Context, st int) error { return instance(ctx, 1, iUntilCancelled, st) })
+			k.SetContext(context.WithValue(context.Background(), ctxKey{}, 1), false)
+			k.SetState(1)
+			vsched.Settle()
+			if live, _, _ := liveInstances(0); live != 1 {
+				fail("C05.live-without-reason", "after SetState(1): %d live instances, want 1", live)
+				return
+			}
+			k.SetState(0)
+			vsched.Settle()
+			if live, _, _ := liveInstances(0); live != 0 {
+				fail("C05.live-without-reason", "after SetState(0) (the empty state): %d instance(s) with a live context although the container has no state", live)
+				return
+			}
+			k.SetState(2)
+			vsched.Settle()
+			live, _, last := liveInstances(0)
+			if live != 1 || vsched.Ctr(rState0+last) != 2 {
+				fail("C05.stale-state", "after SetState(2): %d live instance(s), the last one was given state %d", live, vsched.Ctr(rState0+last))
+			}
+			k.ClearContext()
+			vsched.Settle()
+		},
 	})
 	eng.Register(&eng.Scenario{
 		Name: "sroutine-swap-equiv", Props: []string{"C14", "C05"}, ObsNames: stdObs,
@@ -1102,10 +1161,10 @@ func init() {
 	})
 	eng.Register(&eng.Scenario{
 		Name: "routine-withretry", Props: []string{"C14", "C05"}, ObsNames: stdObs,
-		Doc:   "RoutineContainer / StateRoutineContainer built through the other option spellings (choice): WithRetry(constant back-off config); WithRetry(config) then WithRetry(nil) or WithBackoff(nil); WithRetry(&Backoff{}) (all defaults); NewRoutineContainerWithLogger + WithRetry; NewStateRoutineContainerWithLogger (nil compare function) + WithRetry: the first instance returns an error; with retry configured it is run again by quiescence and exactly one instance is live, without it it is not run again until RestartRoutine; every exit is reported once to the exit callback",
+		Doc:   "RoutineContainer / StateRoutineContainer built through the other option spellings (choice): WithRetry(constant back-off config); WithRetry(config) then WithRetry(nil) or WithBackoff(nil); WithRetry(&Backoff{}) (all defaults); NewRoutineContainerWithLogger + WithRetry; NewStateRoutineContainerWithLogger (nil compare function) + WithRetry; NewStateRoutineContainerVT / ...WithLoggerVT + WithRetry: the first instance returns an error; with retry configured it is run again by quiescence and exactly one instance is live, without it it is not run again until RestartRoutine; every exit is reported once to the exit callback",
 		Quick: eng.Bounds{PB: 2}, Thorough: eng.Bounds{PB: 3},
 		Body: func() {
-			how := vsched.Choose(6)
+			how := vsched.Choose(8)
 			le := logrus.NewEntry(logrus.New())
 			le.Logger.SetOutput(io.Discard)
 			conf := &ubackoff.Backoff{BackoffKind: ubackoff.BackoffKind_BackoffKind_CONSTANT, Constant: &ubackoff.Constant{Interval: 1000}}
@@ -1153,6 +1212,18 @@ func init() {
 				k.SetStateRoutine(func(ctx context.Context, st int) error { return body(ctx) })
 				k.SetContext(c, false)
 				k.SetState(1)
+				restart, clear = k.RestartRoutine, k.ClearContext
+			case 6, 7:
+				// the two constructors for states with VT equality take the same options
+				var k *routine.StateRoutineContainer[*vtMsg]
+				if how == 6 {
+					k = routine.NewStateRoutineContainerVT[*vtMsg](routine.WithRetry(conf), exitCb)
+				} else {
+					k = routine.NewStateRoutineContainerWithLoggerVT[*vtMsg](le, routine.WithRetry(conf), exitCb)
+				}
+				k.SetStateRoutine(func(ctx context.Context, st *vtMsg) error { return body(ctx) })
+				k.SetContext(c, false)
+				k.SetState(&vtMsg{n: 1})
 				restart, clear = k.RestartRoutine, k.ClearContext
 			}
 			vsched.Settle() // auto timers: the retry (if configured) has happened
